@@ -10,7 +10,7 @@ PROP = dict(
     # is what the analysis computes; a difference means the model is no longer the code.  A failing *input* of
     # the property is an accepted program on which compile_bytecode panics: reported through spec_fail.
     mismatch_is_violation=False,
-    rule="96 loop-head programs: break/continue in a while condition (as block, if, match), in a for iterable and in the bodies, for the outermost and for a nested loop, at top level and inside a function, a lambda and a task: checker verdict must be accept=>compiles or a diagnostic, and equals the checker model (`loopctx` requests); 24 programs assigning a captured variable (lambda/task/inner lambda/function-local x six operators) that must be rejected with a diagnostic; 10 hand-written nesting programs (task in fn, lambda in lambda, task in lambda in fn, lambda in task, loop in lambda "
+    rule="96 loop-head programs: break/continue in a while condition (as block, if, match), in a for iterable and in the bodies, for the outermost and for a nested loop, at top level and inside a function, a lambda and a task: checker verdict must be accept=>compiles or a diagnostic, and equals the checker model (`loopctx` requests); 48 programs assigning (= and every compound form) to a PARAMETER: of the enclosing function / lambda from a nested lambda or task, written-only and also read (must be rejected with the captured-variable diagnostic and equal the checker model), and to the function's / lambda's own parameter as control (accepted, compiles, right value); 24 programs assigning a captured variable (lambda/task/inner lambda/function-local x six operators) that must be rejected with a diagnostic; 10 hand-written nesting programs (task in fn, lambda in lambda, task in lambda in fn, lambda in task, loop in lambda "
          "in loop, every compound assignment form, let in match scrutinee / in assignment target, capture only in scrutinee / only "
          "as assignment target) and quick 6x90 / thorough 6x2500 generated programs: tiers F0-F3 plus two nesting streams "
          "(functions, lambdas nested to depth 3, tasks, while/for with break/continue, =, +=, -=, *=, /=, %= on variables, fields "
